@@ -1493,7 +1493,11 @@ def eval_tmo(binp, case):
     specs = [tuple(s_) for s_ in case["specs"]]
     trace = [tuple(x) for x in case["trace"]]
     v = V()
-    info = dict(argv=None, outcome="futex-timeout", inject=None)
+    # which legal kernel answer: "timeout" (ETIMEDOUT, only for a wait that carries a timeout), "spurious" (FUTEX_WAIT returns 0
+    # without a wake - allowed by futex(2) for EVERY wait), "eintr" (interrupted twice in a row)
+    answer = case.get("answer", "timeout")
+    tag = {"timeout": "futex-timeout", "spurious": "futex-spurious", "eintr": "futex-eintr"}[answer]
+    info = dict(argv=None, outcome=tag, inject=None)
     # fault-free run, controller without futex calls of its own: position of the timed exit-word wait
     argv, res, rep = run_sched(binp, specs, "f", trace, strace=True, nofutex=True)
     info["argv"] = argv
@@ -1512,12 +1516,16 @@ def eval_tmo(binp, case):
             addr = _hex(a[0])
         except ValueError:
             continue
-        if target is None and addr in words and len(a) > 3 and a[1].startswith("FUTEX_WAIT") and not a[3].startswith("NULL") and e["pid"] == rep["main_tid"]:
+        if target is None and addr in words and len(a) > 3 and a[1].startswith("FUTEX_WAIT") and (answer != "timeout" or not a[3].startswith("NULL")) and e["pid"] == rep["main_tid"]:
             target = k
     if target is None:
-        info["outcome"] = "futex-timeout:no-timed-wait-on-this-trace"
+        info["outcome"] = tag + (":no-timed-wait-on-this-trace" if answer == "timeout" else ":no-wait-on-this-trace")
+        if answer != "timeout":
+            v.add("MACHINERY:no-exit-word-wait", "the handle owner made no FUTEX_WAIT on the exit word although the trace has it sleep there")
         return v, info, rep
-    inject = "futex:error=ETIMEDOUT:when=%d" % target
+    inject = {"timeout": "futex:error=ETIMEDOUT:when=%d" % target,
+              "spurious": "futex:retval=0:when=%d" % target,
+              "eintr": "futex:error=EINTR:when=%d..%d" % (target, target + 1)}[answer]
     info["inject"] = inject
     argv, res, rep = run_sched(binp, specs, "f", trace, inject=inject, nofutex=True)
     info["argv"] = argv
@@ -1538,9 +1546,9 @@ def eval_tmo(binp, case):
     resource_checks(v, rep, specs, preds)
     strace_checks(v, rep, specs, preds, ev)
     if not rep["early"]:
-        info["outcome"] = "futex-timeout:waited-again"
+        info["outcome"] = tag + ":waited-again"
         return v, info, rep
-    info["outcome"] = "futex-timeout:taken-for-thread-exit"
+    info["outcome"] = tag + ":taken-for-thread-exit"
     # B: let the handle owner run on while the thread is still parked
     bi = next(i for i, (_o, _g, kk) in enumerate(trace) if kk == "b")
     h_rest = [(o, g, "n") for (o, g, kk) in trace[bi + 1:] if g < 30]
@@ -1563,12 +1571,12 @@ def eval_tmo(binp, case):
         resource_checks(vb, rep, specs, None, ungated=True)
         strace_checks(vb, rep, specs, None, evb)
     for k_, d in vb:
-        v.add(k_, "[handle owner scheduled on after the injected ETIMEDOUT, thread still parked] " + d)
+        v.add(k_, "[handle owner scheduled on after the injected %s, thread still parked] " % inject + d)
     keep_evidence(case["name"], res)
     return v, info, rep
 
 
-def enumerate_tmo(model_one, tier):
+def enumerate_tmo(model_one, tier, answers=("timeout",)):
     """every single-thread model trace in which the handle owner sleeps on the exit word before the thread has exited"""
     cases = []
     for (p, op), traces in model_one.items():
@@ -1576,7 +1584,9 @@ def enumerate_tmo(model_one, tier):
             if not any(k == "b" for _o, _g, k in tr):
                 continue
             for ty in (("u64", "box") if tier == "thorough" else ("box",)):
-                cases.append(dict(kind="tmo", specs=[(ty, p, op)], trace=tr, name="tmo/%s/%s/t%d" % (proto_name(p, op), ty, ti)))
+                for answer in answers:
+                    cases.append(dict(kind="tmo", specs=[(ty, p, op)], trace=tr, answer=answer,
+                                      name="tmo/%s/%s/%s/t%d" % (answer, proto_name(p, op), ty, ti)))
     return cases
 
 
@@ -2140,12 +2150,12 @@ def collect(tier, env=None, use_cache=True):
                 fw["untimed"] += w_["untimed"]
                 fw["timed"] += w_["timed"]
                 fw["examples"] = (fw["examples"] + w_["timed_examples"])[:3]
-        if fw["timed"]:
-            tcases = enumerate_tmo(model["one"], tier)
-            fw["injection_runs"] = len(tcases)
-            futs = [ex.submit(run_case, binp, c) for c in tcases]
-            for f in futs:
-                results.append(f.result())
+        # a spurious return (0 without a wake) and EINTR are legal answers for every FUTEX_WAIT; ETIMEDOUT only for a timed one
+        tcases = enumerate_tmo(model["one"], tier, ("spurious", "eintr") + (("timeout",) if fw["timed"] else ()))
+        fw["injection_runs"] = len(tcases)
+        futs = [ex.submit(run_case, binp, c) for c in tcases]
+        for f in futs:
+            results.append(f.result())
     cleanup_tmp()
     out = dict(stamp=stamp, when=time.time(), tier=tier, model=dict(states=mc["states"], transitions=mc["transitions"], configs=mc["configs"],
                errors=[(n, [list(t) for t in th], o, [list(l) for l in tr]) for n, th, o, tr in mc["errors"]], mutants=mc["mutants"],
@@ -2206,7 +2216,7 @@ def make_report(prop, tier, data):
             continue
         rep["evaluations"] += 1
         sig = (k, json.dumps(case.get("specs")), json.dumps(case.get("trace")), case.get("order"), case.get("inject"), case.get("reps"), case.get("delay_us"),
-               json.dumps(case.get("levels")), case.get("ty"), case.get("fail"))
+               json.dumps(case.get("levels")), case.get("ty"), case.get("fail"), case.get("answer"))
         if sig not in seen:
             seen.add(sig)
             rep["distinct_nontrivial"] += 1
@@ -2237,7 +2247,8 @@ def make_report(prop, tier, data):
     elif fw.get("untimed"):
         # vacuous on purpose: with no timeout argument the kernel cannot answer ETIMEDOUT
         rep["outcomes"]["futex-wait:untimed"] = fw["untimed"]
-        rep["notes"].append("all %d observed waits on an exit word pass timeout=NULL: ETIMEDOUT is not a legal kernel answer, the timeout-injection sub-scenario is vacuous (not run)" % fw["untimed"])
+        rep["notes"].append("all %d observed waits on an exit word pass timeout=NULL: ETIMEDOUT is not a legal kernel answer (timeout injection not run); "
+                            "spurious return 0 and EINTR x2 were injected in %d runs" % (fw["untimed"], fw.get("injection_runs", 0)))
     else:
         rep["notes"].append("machinery-failure")
         rep["notes"].append("no wait on an exit word was observed in any fault-free system-call log")
@@ -2264,7 +2275,8 @@ def make_report(prop, tier, data):
                    "this samples the orderings INSIDE the ungated windows, which schedule replay cannot order. Every gated/ungated run also checks the "
                    "post-condition of the exit-word wait at the gate after it (word == 0), and every FUTEX_WAIT on an exit word in the fault-free logs is "
                    "inspected: only if one carries a timeout, each trace in which the handle owner sleeps before the thread's exit is re-run with that wait "
-                   "answered ETIMEDOUT (strace injection) while the thread stays parked." % (", 3" if tier == "thorough" else "", "all trace pairs (canonical linearisations)" if tier == "thorough" else "a sample",
+                   "answered ETIMEDOUT (strace injection) while the thread stays parked; the same traces are always re-run with that wait answered by a "
+                   "spurious return (0 without a wake) and by EINTR twice in a row - legal for every FUTEX_WAIT." % (", 3" if tier == "thorough" else "", "all trace pairs (canonical linearisations)" if tier == "thorough" else "a sample",
                                                             64 if tier == "thorough" else 8, 2000 if tier == "thorough" else 200))
     if tier != "thorough":
         rep["exhaustive"] = False
